@@ -216,6 +216,10 @@ pub mod shim {
         inner: std::sync::Mutex<T>,
     }
 
+    pub type MutexGuard<'a, T> = Guard<'a, T>;
+    pub type RwLockReadGuard<'a, T> = ReadGuard<'a, T>;
+    pub type RwLockWriteGuard<'a, T> = WriteGuard<'a, T>;
+
     pub struct Guard<'a, T> {
         g: Option<std::sync::MutexGuard<'a, T>>,
         lock: usize,
@@ -402,14 +406,6 @@ pub mod shim {
     }
 }
 
+// `shadow_uist` / `shadow_jura`: the mirrored tree of rotala/src/http (see build.rs)
 #[cfg(shadow_http)]
-#[allow(dead_code, unused_imports, clippy::all)]
-pub mod shadow_uist {
-    include!(concat!(env!("OUT_DIR"), "/shadow_uist.rs"));
-}
-
-#[cfg(shadow_http)]
-#[allow(dead_code, unused_imports, clippy::all)]
-pub mod shadow_jura {
-    include!(concat!(env!("OUT_DIR"), "/shadow_jura.rs"));
-}
+include!(concat!(env!("OUT_DIR"), "/shadow_mods.rs"));
